@@ -25,13 +25,18 @@ Forms == [
   deep    |-> G("**/o.log", <<"**", "/", "o", ".", "l", "o", "g">>, FALSE),
   one     |-> G("?.log", <<"?", ".", "l", "o", "g">>, FALSE),
   nested  |-> G("src/gen", <<"s", "r", "c", "/", "g", "e", "n">>, FALSE),
+  \* a directory pattern written with a trailing slash (for hg and docker the slash changes nothing; git: directories only - git is the oracle)
+  dirslash |-> G("build/", <<"b", "u", "i", "l", "d">>, FALSE),
+  nestedslash |-> G("src/gen/", <<"s", "r", "c", "/", "g", "e", "n">>, FALSE),
+  \* a pattern that names the search root itself when the root is `src` (the ignore file sits in an ancestor of the root)
+  srcdir  |-> G("src", <<"s", "r", "c">>, FALSE),
   neg     |-> G("!keep.log", <<"k", "e", "e", "p", ".", "l", "o", "g">>, TRUE),
   comment |-> [G("# *.rs", <<>>, FALSE) EXCEPT !.blank = TRUE],
   blank   |-> [G("", <<>>, FALSE) EXCEPT !.blank = TRUE],
   rxend   |-> R("\\.log$", <<El("."), El("l"), El("o"), El("g")>>, FALSE, TRUE),
   rxstart |-> R("^build", <<El("b"), El("u"), El("i"), El("l"), El("d")>>, TRUE, FALSE),
   rxmid   |-> R("gen/o", <<El("g"), El("e"), El("n"), El("/"), El("o")>>, FALSE, FALSE) ]
-GlobForms == {"lit", "star", "dir", "dirstar", "deep", "one", "nested", "comment", "blank"}
+GlobForms == {"lit", "star", "dir", "dirstar", "deep", "one", "nested", "dirslash", "nestedslash", "srcdir", "comment", "blank"}
 FormsOf(t) == CASE t = "git" -> GlobForms \cup {"neg"} [] t = "docker" -> GlobForms \cup {"neg"}
                 [] t = "hgglob" -> GlobForms [] t = "hgrx" -> {"rxend", "rxstart", "rxmid", "comment", "blank"}
 
@@ -41,7 +46,7 @@ AddLine == /\ phase = "lines" /\ Len(lines) < MaxLines
            /\ \E f \in FormsOf(tool) : lines' = Append(lines, f)
            /\ UNCHANGED <<tool, spell, act, phase>>
 Finish == /\ phase = "lines" /\ lines # <<>>
-          /\ spell' \in {"dot", "rel", "abs", "sub", "subdot"}
+          /\ spell' \in {"dot", "rel", "abs", "sub", "subdot", "gen", "gendot"}
           /\ act' \in {"option", "config", "override"}
           \* the spelling and the activation are varied one at a time
           /\ (spell' = "dot" \/ act' = "option")
@@ -63,6 +68,7 @@ W == [gitinit |-> (tool = "git"),
 
 OptWord == CASE tool = "git" -> "gitignore" [] tool = "docker" -> "dockerignore" [] OTHER -> "hgignore"
 RootText == CASE spell = "dot" -> "'.'" [] spell = "rel" -> "'r'" [] spell = "abs" -> "'@ROOT@'" [] spell = "sub" -> "'src'" [] spell = "subdot" -> "'.'"
+              [] spell = "gen" -> "'src/gen'" [] spell = "gendot" -> "'.'"
 OptText == CASE act = "option" -> " " \o OptWord [] act = "config" -> "" [] act = "override" -> " no" \o OptWord
 Query == "select inode, path from " \o RootText \o OptText
          \o " where name != '.git' and path not like '%/.git/%' and name != '.hg' into list"
@@ -72,8 +78,8 @@ RECURSIVE LinesClass(_)
 LinesClass(i) == IF i > Len(lines) THEN "" ELSE (IF i > 1 THEN "+" ELSE "") \o lines[i] \o LinesClass(i + 1)
 Scenario == [prop |-> "C20", class |-> tool \o "/" \o LinesClass(1) \o "/" \o spell \o "/" \o act, world |-> W, tool |-> tool,
              lines |-> [i \in 1 .. Len(lines) |-> Forms[lines[i]]], active |-> (act # "override"),
-             root |-> IF spell \in {"sub", "subdot"} THEN 4 ELSE 0,
-             env |-> [tz |-> "UTC", cwd |-> (CASE spell = "rel" -> -1 [] spell = "subdot" -> 4 [] OTHER -> 0), config |-> Cfg],
+             root |-> IF spell \in {"sub", "subdot"} THEN 4 ELSE IF spell \in {"gen", "gendot"} THEN 7 ELSE 0,
+             env |-> [tz |-> "UTC", cwd |-> (CASE spell = "rel" -> -1 [] spell = "subdot" -> 4 [] spell = "gendot" -> 7 [] OTHER -> 0), config |-> Cfg],
              runs |-> << [tag |-> "q", ncols |-> 2, argv |-> << Query >>] >>]
 Emit == phase = "done" => PrintT(<<"REPLAY", ToJson(Scenario)>>)
 =============================================================================
